@@ -4,8 +4,10 @@ go 1.23
 
 require (
 	github.com/tjfoc/gmsm v0.0.0
-	pgregory.net/rapid v1.3.0
 	golang.org/x/crypto v0.0.0-20201012173705-84dcc777aaee
+	pgregory.net/rapid v1.3.0
 )
+
+require golang.org/x/sys v0.0.0-20200930185726-fdedc70b468f // indirect
 
 replace github.com/tjfoc/gmsm => /repo
